@@ -151,7 +151,7 @@ Proof.
   rewrite mon_run_app in E. destruct (mon_run (tmon_step strict) tmon_init pre) as [m1|] eqn:E1; [|discriminate].
   cbn [mon_run] in E. destruct (tmon_step strict m1 (Rt t CTerminate true)) as [m2|] eqn:E2; [|discriminate].
   assert (t_term m2 = true) as Ht.
-  { unfold tmon_step in E2. crunch; cbn; apply orb_true_r. }
+  { unfold tmon_step in E2. cbn in E2. crunch; cbn; apply orb_true_r. }
   intros e Hin. eapply tmon_dead_events; eassumption.
 Qed.
 
@@ -161,8 +161,8 @@ Lemma tmon_late_kept : forall strict tr m m' t,
 Proof.
   induction tr as [|e r IH]; intros m m' t H Hl; cbn in H; [inv H; exact Hl|].
   destruct (tmon_step strict m e) as [m1|] eqn:E; [|discriminate]. apply (IH m1 m' t H).
-  unfold tmon_step in E. destruct e; crunch; cbn; try exact Hl; unfold mem_tid in *; cbn; rewrite ?Hl;
-    try reflexivity; apply orb_true_r.
+  unfold tmon_step in E. destruct e; crunch; cbn; try exact Hl.
+  destruct (t_term m); [|exact Hl]. destruct c; try exact Hl; unfold mem_tid in *; cbn; rewrite Hl; apply orb_true_r.
 Qed.
 
 Theorem terminate_sound_late : forall strict pre t mid t' c post,
@@ -174,7 +174,7 @@ Proof.
     [|discriminate].
   rewrite mon_run_app in E. destruct (mon_run (tmon_step strict) tmon_init pre) as [m1|] eqn:E1; [|discriminate].
   cbn [mon_run] in E. destruct (tmon_step strict m1 (Rt t CTerminate true)) as [m2|] eqn:E2; [|discriminate].
-  assert (t_term m2 = true) as Ht by (unfold tmon_step in E2; crunch; cbn; apply orb_true_r).
+  assert (t_term m2 = true) as Ht by (unfold tmon_step in E2; cbn in E2; crunch; cbn; apply orb_true_r).
   rewrite mon_run_app in E. destruct (mon_run (tmon_step strict) m2 mid) as [m3|] eqn:E3; [|discriminate].
   pose proof (tmon_term_mono _ _ _ _ E3 Ht) as Ht3.
   cbn [mon_run] in E. destruct (tmon_step strict m3 (Ca t' c)) as [m4|] eqn:E4; [|discriminate].
@@ -249,9 +249,8 @@ Proof.
       - destruct ok; inv E; [|exists x; split; [exact Hf|tauto]].
         exists (f_on_exit s x). split.
         + rewrite f_find_map; [rewrite Hf; reflexivity|]. intros y. destruct s; reflexivity.
-        + destruct s; cbn; repeat split; intros Hx; eauto.
-          * apply orb_prop in Hx. destruct Hx as [Hx|Hx]; eauto.
-          * apply orb_prop in Hx. destruct Hx as [Hx|Hx]; eauto. }
+        + destruct s; cbn; repeat split; intros Hx; eauto;
+            apply orb_prop in Hx; destruct Hx as [Hx|Hx]; eauto. }
     destruct (IH m1 m' t x1 H Hnr' Hnc' Hf1) as (x' & Hf' & A & B & C & D).
     exists x'. split; [exact Hf'|].
     repeat split; intro Hx.
@@ -288,7 +287,75 @@ Proof.
   unfold f_complete in Ec. repeat (apply andb_prop in Ec; destruct Ec as [Ec ?]).
   repeat split.
   - destruct (A Ec) as [Hx|Hx]; [discriminate|exact Hx].
-  - destruct (B H0) as [Hx|Hx]; [discriminate|exact Hx].
+  - destruct (B H2) as [Hx|Hx]; [discriminate|exact Hx].
   - destruct (C H1) as [Hx|Hx]; [discriminate|exact Hx].
-  - destruct (D H2) as [Hx|Hx]; [discriminate|exact Hx].
+  - destruct (D H0) as [Hx|Hx]; [discriminate|exact Hx].
+Qed.
+
+(* ------------------------------------------------------------------ *)
+(* halt (C11) *)
+
+Definition is_shutdown_event (e : event) : bool :=
+  match e with En _ MShutdown | Ex _ MShutdown _ => true | _ => false end.
+
+(* when the monitor starts expecting the halted behaviour: the second scan of
+   a cycle has just returned, the check sequence yields a halt on the ancestor
+   given to the scans and the two returned contents, and no lifecycle command
+   is active *)
+Theorem halt_arming : forall md m s r c m' k n,
+  hmon_step md m (Sx s true r c) = Some m' -> h_halt m = None -> h_halt m' = Some (k, n) ->
+  n = 0 /\ any_active is_lifecycle (h_act m) = false /\
+  exists ca cb, safety_verdict md (h_anc m) ca cb = Some k /\
+                ((s = Alpha /\ ca = c /\ h_rb m = SOk cb) \/ (s = Beta /\ cb = c /\ h_ra m = SOk ca)).
+Proof.
+  intros md m s r c m' k n H Hh Hh'. unfold hmon_step in H. rewrite Hh in H.
+  destruct s; cbn in H.
+  - destruct (h_rb m) as [| |cb|] eqn:Eb; cbn in H; try (inv H; cbn in Hh'; discriminate).
+    destruct (safety_verdict md (h_anc m) c cb) eqn:Ev; [|inv H; cbn in Hh'; discriminate].
+    destruct (any_active is_lifecycle (h_act m)) eqn:Ea; inv H; cbn in Hh'; [discriminate|]. inv Hh'.
+    repeat split; auto. exists c, cb. split; [exact Ev|]. left. auto.
+  - destruct (h_ra m) as [| |ca|] eqn:Ea0; cbn in H; try (inv H; cbn in Hh'; discriminate).
+    destruct (safety_verdict md (h_anc m) ca c) eqn:Ev; [|inv H; cbn in Hh'; discriminate].
+    destruct (any_active is_lifecycle (h_act m)) eqn:Ea; inv H; cbn in Hh'; [discriminate|]. inv Hh'.
+    repeat split; auto. exists ca, c. split; [exact Ev|]. right. auto.
+Qed.
+
+(* while it expects the halted behaviour and no lifecycle command is called and
+   no new manager is created: the only endpoint events accepted are the entry
+   and exit of Shutdown; and a status observed after both shutdowns have
+   returned is the Halted status of the check that fired *)
+Theorem halt_sound : forall md tr m m' k shut,
+  mon_run (hmon_step md) m tr = Some m' -> h_halt m = Some (k, shut) ->
+  (forall t c, In (Ca t c) tr -> is_lifecycle c = false) -> (forall l, ~ In (Nm l) tr) ->
+  (exists shut', h_halt m' = Some (k, shut') /\ shut <= shut') /\
+  (forall e, In e tr -> is_endpoint e = true -> is_shutdown_event e = true) /\
+  (forall st, In (ObT true (Some st)) tr -> 2 <= shut -> st = halt_status k).
+Proof.
+  intros md tr. induction tr as [|e r IH]; intros m m' k shut H Hh Hnl Hnm; cbn in H.
+  - inv H. split; [eauto|]. split; intros; contradiction.
+  - destruct (hmon_step md m e) as [m1|] eqn:E; [|discriminate].
+    assert (Hstep : (exists shut1, h_halt m1 = Some (k, shut1) /\ shut <= shut1) /\
+                    (is_endpoint e = true -> is_shutdown_event e = true) /\
+                    (forall st, e = ObT true (Some st) -> 2 <= shut -> st = halt_status k)).
+    { unfold hmon_step in E. rewrite Hh in E.
+      destruct e; try (cbn in E |- *; inv E; cbn; repeat split; eauto; intros; discriminate); cbn -[Nat.leb] in E |- *.
+      - assert (is_lifecycle c = false) as Hl by (apply (Hnl t c); left; reflexivity). rewrite Hl in E. inv E. cbn.
+        repeat split; eauto; intros; discriminate.
+      - destruct m0; inv E; cbn; repeat split; eauto; intros; discriminate.
+      - destruct m0; inv E; cbn; repeat split; eauto; intros; discriminate.
+      - destruct clean; [|inv E; cbn; repeat split; eauto; intros; discriminate].
+        destruct status as [st0|]; [|inv E; cbn; repeat split; eauto; intros; discriminate].
+        destruct (Nat.leb 2 shut && negb (Nat.eqb st0 (halt_status k))) eqn:Eb; inv E. cbn.
+        split; [exists shut; split; [reflexivity|lia]|]. split; [intros; discriminate|].
+        intros st Hst Hs. injection Hst as <-. apply andb_false_iff in Eb. destruct Eb as [Eb|Eb].
+        + apply Nat.leb_gt in Eb. lia.
+        + apply negb_false_iff in Eb. apply Nat.eqb_eq in Eb. exact Eb.
+      - exfalso. apply (Hnm loaded). left. reflexivity. }
+    destruct Hstep as ((shut1 & Hh1 & Hle1) & He & Hst).
+    destruct (IH m1 m' k shut1 H Hh1) as ((shut' & Hh' & Hle') & Hall & Hobs).
+    + intros t c Hin. apply (Hnl t c). right. exact Hin.
+    + intros l Hin. apply (Hnm l). right. exact Hin.
+    + split; [exists shut'; split; [exact Hh'|lia]|]. split.
+      * intros e0 [<-|Hin]; [exact He|apply Hall; exact Hin].
+      * intros st [Hin|Hin] Hs; [apply Hst; [exact Hin|exact Hs]|apply Hobs; [exact Hin|lia]].
 Qed.
